@@ -229,7 +229,7 @@ func (cl *cluster) apply(ev string) {
 			st = cl.cfg.States[i]
 		}
 		err := cl.guard(ev, func() error {
-			return c.RegisterReplica(types.RegReplica{Address: ip(i), UUID: fmt.Sprintf("uuid-%d", i), RevCount: nv.Rev, RepType: "Backend", RepState: st})
+			return cl.api().RegisterReplica(types.RegReplica{Address: ip(i), UUID: fmt.Sprintf("uuid-%d", i), RevCount: nv.Rev, RepType: "Backend", RepState: st})
 		})
 		cl.failSig = false
 		cl.observe("%s -> %v", ev, err != nil)
@@ -248,7 +248,7 @@ func (cl *cluster) apply(ev string) {
 			st = cl.cfg.States[i]
 		}
 		err := cl.guard(ev, func() error {
-			return c.RegisterReplica(types.RegReplica{Address: ip(i), UUID: fmt.Sprintf("uuid-%d", i), RevCount: nv.Rev, RepType: "Backend", RepState: st})
+			return cl.api().RegisterReplica(types.RegReplica{Address: ip(i), UUID: fmt.Sprintf("uuid-%d", i), RevCount: nv.Rev, RepType: "Backend", RepState: st})
 		})
 		cl.lostProbes = map[int]int{}
 		cl.observe("%s -> %v", ev, err != nil)
@@ -275,7 +275,7 @@ func (cl *cluster) apply(ev string) {
 				addrs = append(addrs, addr(k))
 			}
 		}
-		err := cl.guard(ev, func() error { return c.Start(addrs...) })
+		err := cl.guard(ev, func() error { return cl.api().Start(addrs...) })
 		cl.observe("%s -> %v", ev, err != nil)
 		cl.terr(ev, err)
 		cl.settle()
@@ -287,7 +287,7 @@ func (cl *cluster) apply(ev string) {
 	case "Add":
 		i := atoi(f[1])
 		cl.nAdds++
-		err := cl.guard(ev, func() error { return c.AddReplica(addr(i)) })
+		err := cl.guard(ev, func() error { return cl.api().AddReplica(addr(i)) })
 		cl.observe("%s -> %v", ev, err != nil)
 		cl.terr(ev, err)
 		if err == nil {
@@ -301,7 +301,7 @@ func (cl *cluster) apply(ev string) {
 		cl.nAdds++
 		cl.nFaults++
 		cl.failREST[fmt.Sprintf("%d/snapshot", fnode)] = true
-		err := cl.guard(ev, func() error { return c.AddReplica(addr(i)) })
+		err := cl.guard(ev, func() error { return cl.api().AddReplica(addr(i)) })
 		cl.observe("%s -> %v", ev, err != nil)
 		cl.terr(ev, err)
 		if err == nil {
@@ -313,7 +313,7 @@ func (cl *cluster) apply(ev string) {
 		// first half of AddReplica: admission check under the lock, then parked inside factory.Create (unlocked)
 		i := atoi(f[1])
 		cl.nAdds++
-		cl.adds[i] = cl.startTask("add", i, func() error { return c.AddReplica(addr(i)) })
+		cl.adds[i] = cl.startTask("add", i, func() error { return cl.api().AddReplica(addr(i)) })
 		cl.observe("%s -> done=%v err=%v", ev, cl.adds[i].done, cl.adds[i].err != nil)
 	case "AddF":
 		// second half: create the backend, re-take the lock, attach
@@ -352,7 +352,7 @@ func (cl *cluster) apply(ev string) {
 		i := atoi(f[1])
 		cl.failREST[fmt.Sprintf("%d/%s", i, f[2])] = true
 		cl.nFaults++
-		err := cl.guard(ev, func() error { return c.VerifyRebuildReplica(addr(i)) })
+		err := cl.guard(ev, func() error { return cl.api().VerifyRebuildReplica(addr(i)) })
 		cl.observe("%s -> %v", ev, err != nil)
 		cl.terr(ev, err)
 		cl.failREST = map[string]bool{}
@@ -375,7 +375,7 @@ func (cl *cluster) apply(ev string) {
 		}
 	case "Verify", "VerifyEarly":
 		i := atoi(f[1])
-		err := cl.guard(ev, func() error { return c.VerifyRebuildReplica(addr(i)) })
+		err := cl.guard(ev, func() error { return cl.api().VerifyRebuildReplica(addr(i)) })
 		cl.observe("%s -> %v", ev, err != nil)
 		cl.terr(ev, err)
 		cl.settle()
@@ -408,6 +408,14 @@ func (cl *cluster) apply(ev string) {
 		cl.nFaults += bits(mask)
 		cl.nSnaps++
 		cl.snapshot(ev, mask, before)
+	case "Revert":
+		mask := atoi(f[1])
+		for _, n := range maskNodes(mask, cl.cfg.N) {
+			cl.failREST[fmt.Sprintf("%d/revert", n)] = true
+		}
+		cl.nFaults += bits(mask)
+		cl.nReverts++
+		cl.revert(ev, mask, before)
 	case "MonFail":
 		b := cl.bes[atoi(f[1])]
 		b.monitoring = false
@@ -422,11 +430,11 @@ func (cl *cluster) apply(ev string) {
 		cl.observe("%s", ev)
 	case "Remove":
 		i := atoi(f[1])
-		err := cl.guard(ev, func() error { return c.RemoveReplica(addr(i)) })
+		err := cl.guard(ev, func() error { return cl.api().RemoveReplica(addr(i)) })
 		cl.observe("%s -> %v", ev, err != nil)
 	case "ERR", "RW":
 		i := atoi(f[1])
-		err := cl.guard(ev, func() error { return c.SetReplicaMode(addr(i), types.Mode(f[0])) })
+		err := cl.guard(ev, func() error { return cl.api().SetReplicaMode(addr(i), types.Mode(f[0])) })
 		cl.observe("%s -> %v", ev, err != nil)
 	case "RB":
 		i := atoi(f[1])
@@ -654,7 +662,7 @@ func (cl *cluster) wants(o string) bool { return cl.cfg.has(cl.cfg.Oracles, o) }
 func (cl *cluster) expectBlock(b int) (must int, may map[int]bool) {
 	may = map[int]bool{}
 	for id := 1; id <= cl.nWrites; id++ {
-		if blockOf(id) != b {
+		if blockOf(id) != b || cl.undone[id] {
 			continue
 		}
 		if cl.acked[id] {
@@ -759,12 +767,14 @@ func (cl *cluster) read(ev string, mask int, before controller.VerifView, ncalls
 }
 
 func (cl *cluster) snapshot(ev string, mask int, before controller.VerifView) {
-	c := cl.c
 	name := fmt.Sprintf("u%d", cl.nSnaps)
 	var got string
-	err := cl.guard(ev, func() error { var e error; got, e = c.Snapshot(name); return e })
+	err := cl.guard(ev, func() error { var e error; got, e = cl.api().Snapshot(name); return e })
 	cl.observe("%s -> %v", ev, err != nil)
 	_ = got
+	if err == nil {
+		cl.goodSnaps = append(cl.goodSnaps, goodSnap{name, cl.nWrites})
+	}
 	if !cl.wants("c13") {
 		return
 	}
@@ -808,6 +818,79 @@ func (cl *cluster) snapshot(ev string, mask int, before controller.VerifView) {
 			if img != ref {
 				cl.violate("snapshot-not-point-in-time", "snapshot-differs", fmt.Sprintf("%s: snapshot %s differs between node %d and node %d", ev, full, have[0], i))
 			}
+		}
+	}
+}
+
+// revert: the volume is reverted to the newest volume snapshot that was reported successful, with the revert call of
+// the replicas in mask failing.  A replica whose revert failed leaves service; the others read back the snapshot.
+func (cl *cluster) revert(ev string, mask int, before controller.VerifView) {
+	gs := cl.goodSnaps[len(cl.goodSnaps)-1]
+	full := "volume-snap-" + gs.name + ".img"
+	rw, wo, _ := modesOf(before)
+	headsBefore := map[int]string{}
+	for i, nd := range cl.nodes {
+		if v := nd.View(); len(v.Chain) > 0 {
+			headsBefore[i] = fmt.Sprint(v.Chain) + "/" + v.Data
+		}
+	}
+	err := cl.guard(ev, func() error { return cl.api().Revert(gs.name) })
+	cl.settle()
+	cl.observe("%s -> %v", ev, err != nil)
+	after := cl.c.VerifView()
+	arw, awo, _ := modesOf(after)
+	var reverted []int
+	for _, n := range rw {
+		if mask&(1<<n) == 0 {
+			reverted = append(reverted, n)
+		}
+	}
+	if len(wo) > 0 {
+		reverted = nil // refused while a replica is rebuilding
+	}
+	if err == nil && len(reverted) > 0 {
+		for id := gs.at + 1; id <= cl.nWrites; id++ {
+			cl.undone[id] = true
+		}
+	}
+	if !(cl.wants("c13") || cl.wants("c05") || cl.wants("c06")) {
+		return
+	}
+	if err == nil && len(reverted) == 0 {
+		cl.violate("revert", "revert-success-without-effect", fmt.Sprintf("%s reported success but no replica could revert (RW before %v, WO before %v, failing mask %b)", ev, rw, wo, mask))
+		return
+	}
+	if len(wo) > 0 || len(rw) == 0 {
+		// refused: nothing may have changed on any replica
+		for i, nd := range cl.nodes {
+			v := nd.View()
+			if h, ok := headsBefore[i]; ok && h != fmt.Sprint(v.Chain)+"/"+v.Data {
+				cl.violate("revert", "refused-revert-changed-a-replica", fmt.Sprintf("%s was refused (%v) but node %d changed its chain or data: now %v", ev, err, i, v.Chain))
+			}
+		}
+		return
+	}
+	for _, n := range append(arw, awo...) {
+		if mask&(1<<n) != 0 {
+			cl.violate("revert", "revert-failed-replica-in-service", fmt.Sprintf("%s: the revert call failed on node %d, yet it is still in service afterwards (replicas %v)", ev, n, after.Replicas))
+			return
+		}
+	}
+	if err != nil {
+		return
+	}
+	for _, n := range arw {
+		nv := cl.nodes[n].View()
+		img, ok := cl.nodes[n].SnapshotImage(full)
+		if !ok {
+			cl.violate("revert", "reverted-replica-lacks-snapshot", fmt.Sprintf("%s: node %d is RW after the revert but does not hold %s", ev, n, full))
+			continue
+		}
+		if nv.Data != img {
+			cl.violate("revert", "revert-image-differs", fmt.Sprintf("%s reported success, node %d is RW, but its volume image differs from snapshot %s", ev, n, full))
+		}
+		if len(nv.Chain) == 0 || nv.Chain[0] != full {
+			cl.violate("revert", "revert-chain", fmt.Sprintf("%s reported success, node %d is RW, but its newest snapshot is %v, not %s", ev, n, nv.Chain, full))
 		}
 	}
 }
